@@ -478,16 +478,20 @@ def apply_params(sig, posargs, pokargs, varargs, kwoargs, varkwargs,
     parameters.extend(kwoargs.values())
     if varkwargs:
         parameters.append(varkwargs)
-    if sources is None:
-        # the result gets a provenance map of its own, like those of the
-        # other operations
-        return sig.replace(
-            parameters=parameters, sources=copy_sources(sig.sources),
-            _stacklevel=_stacklevel + 1)
+    # the result gets a provenance map of its own, like those of the other
+    # operations, and so do its parameters (which may be the inputs' own
+    # parameter objects)
+    sources = copy_sources(sig.sources if sources is None else sources)
     sig = sig.replace(parameters=parameters, _stacklevel=_stacklevel + 1)
-    sig = Signature._upgrade(sig, function, sources, _stacklevel=1)
-    sig.sources = sources
-    return sig
+    depths = sources['+depths']
+    parameters = []
+    for param in sig.parameters.values():
+        own = list(sources.get(param.name, ()))
+        parameters.append(param.replace(
+            sources=own,
+            source_depths=dict(
+                (func, depths[func]) for func in own if func in depths)))
+    return sig.replace(parameters=parameters, sources=sources)
 
 
 class IncompatibleSignatures(ValueError):
